@@ -20,15 +20,7 @@ type GhostVar struct {
 }
 
 func (vc *VC) ghostLoc(name string) string {
-	k := "ghost:" + name
-	if n, ok := vc.strs[k]; ok {
-		return n
-	}
-	// ghost cells have negative root ids: no program pointer (rt >= 0) aliases them
-	id := len(vc.strs) + 2
-	n := fmt.Sprintf("(L (- %d) PNil)", id)
-	vc.strs[k] = n
-	return n
+	return vc.fixedLoc("ghost:"+name, true)
 }
 
 // ghostVal reads a ghost variable in state st.
